@@ -445,6 +445,31 @@ def c19(run, tier):
     # sub-queries of field tags from every start node are also covered by C18; sessions mix Exec and Unmarshal in C13
 
 
+def c20(run, tier):
+    import os
+    binary = run.build_cli(race=False)
+    work = os.path.join(run.work, "cli")
+    os.makedirs(work, exist_ok=True)
+    run.env["XSEL_CLI"] = binary
+    run.env["XSEL_CLI_WORK"] = work
+    cfg = run.cfg("MC_Cli.cfg", {}, "gen.cfg")
+    rep = run.tlc_gen_replay("MC_Cli", cfg, "runs", timeout=900, harness_args=["-workers", "8"])
+    run.absorb(rep, VALUE_ASPECTS | {"output", "diag", "cli"})
+
+
+def c20_replay(run, path):
+    import os, subprocess
+    run.build_harness()
+    binary = run.build_cli(race=False)
+    work = os.path.join(run.work, "cli")
+    os.makedirs(work, exist_ok=True)
+    e = dict(run.env, XSEL_CLI=binary, XSEL_CLI_WORK=work)
+    p = subprocess.run([run.harness, "replay-one", path], env=e)
+    if p.returncode == 1:
+        print("VIOLATION property=C20 replay=%s" % path)
+    return p.returncode
+
+
 def adapter_replay(run, path):
     import json, os, subprocess
     rc = json.load(open(path))
@@ -562,6 +587,14 @@ PROPS = {
             "and compares the projected target with the specification's filled value", "exhaustive": {"quick": True, "thorough": True},
             "assumptions": BASE_ASSUME + ["numeric field values are only judged when exactly representable in the field type (conversion of NaN / out-of-range numbers is not constrained)",
                                           "unexported tagged fields are exercised through one statically declared type (reflect.StructOf cannot create them)"]},
+    "C20": {"run": c20, "replay": c20_replay,
+            "rule": "TLC enumerates 6 argument trees (flat files; a directory with xml/json and a sub-directory with html; well-formed, malformed, entity-using, .txt, extension-less and dangling-symlink files) x all combinations of "
+            "-a -m (exclusive) -n -r, -t in {none, xml, json}, -e foo=bar, and three query kinds (node-set, empty node-set, number) = 1296 command lines; CliOutput.tla yields per file whether it is visited, the parse type, whether a "
+            "diagnostic is owed, the record kind (none / first / each / xml) and the prefix; Laws are checked on the specification; the harness materialises the tree, runs the freshly built command, and checks stdout per file "
+            "(records contiguous, in result order, texts derived from the library API with the same bindings -s/-v/-e; -m records re-parsed with ReadXml and compared with the node's subtree) and stderr for owed diagnostics; "
+            "four query variants exercise -s and -v bindings, text/comment/PI/attribute results", "exhaustive": {"quick": True, "thorough": True},
+            "assumptions": BASE_ASSUME + ["outcomes the specification does not determine (e.g. JSON text forced to be read as XML) are skipped", "values contain no newline characters",
+                                          "stand-alone -m serialisation of attribute and namespace nodes is not constrained"]},
     "C01": {
         "run": c01,
         "rule": "TLC enumerates every document the Store machine can build within the node bound (all kinds, names a/b x {no namespace,U1}), "
